@@ -5785,13 +5785,9 @@ class CodegenCtx:
             # Check if we need to allocate
             # (a buffer with a default value is allocated in the start(), but delete may have freed it since)
             if ProgramData.do(ProgramFlag.ALLOCATE_STR_SPACE_DYNAMIC_ON_DEMAND) and (action.into_storage.default_value is None or ProgramData.do(ProgramFlag.DELETE_STRING_FREE_MEMORY)):
-                if is_start and action.into_storage.default_value is None and not getattr(action.into_storage, "_allocated_in_start", False):
-                    # if we're at the start, and there's no default value, and on demand is in effect, there's no possible way for state->c to have any value other than NULL
-                    # (unless an earlier start-up assignment has allocated it already)
-                    action.into_storage._allocated_in_start = True
-                    result.add(f"state->c.{action.into_storage.name} = malloc({action.into_storage.str_size});")
-                else:
-                    result.add(f"if (!state->c.{action.into_storage.name}) state->c.{action.into_storage.name} = malloc({action.into_storage.str_size});")
+                # (also in start(): the pointer has been set to NULL before the start actions run, and an earlier start
+                #  action - an append, an assignment, one inside a conditional - may or may not have allocated it)
+                result.add(f"if (!state->c.{action.into_storage.name}) state->c.{action.into_storage.name} = malloc({action.into_storage.str_size});")
             if len(action.value_expr) > action.into_storage.effective_string_size():
                 raise IllegalDFAStateError("Literal is too long for output", action)
             result.add(self._generate_set_string(action.value_expr, action.into_storage))
